@@ -320,7 +320,46 @@ class Ctx:
         """the unwrapped original of a wrapped callable (or func itself)."""
         return getattr(func, '__vmon_orig__', func)
 
-    def attach(self, owner, name, post=None, pre=None, point=None):
+    @staticmethod
+    def _array_args(args, kwargs):
+        out = []
+        for i, a in list(enumerate(args)) + list(kwargs.items()):
+            if isinstance(a, np.ndarray) or (hasattr(a, 'detach') and hasattr(a, 'numpy')):
+                out.append((i, a))
+            elif isinstance(a, (list, tuple)) and a and all(isinstance(x, np.ndarray) for x in a):
+                for j, x in enumerate(a):
+                    out.append((f'{i}[{j}]', x))
+        return out
+
+    def history_probe(self, key, f, *args, **kwargs):
+        """history monitor for a pure function: call, edit the returned arrays in place, call again with the same arguments: the
+        second result must equal the first one as returned (a result that aliases a cache / an earlier result, or state left over
+        from the first call, shows here). Returns the second result."""
+        def arrays(r):
+            if isinstance(r, np.ndarray):
+                return [r]
+            if isinstance(r, (tuple, list)):
+                return [x for y in r for x in arrays(y)]
+            return []
+        r1 = f(*args, **kwargs)
+        a1 = arrays(r1)
+        snaps = [x.copy() for x in a1]
+        for x in a1:
+            if x.flags.writeable and x.size:
+                try:
+                    x[...] = 7 if x.dtype.kind in 'iub' else x * 0.5 + 3
+                except Exception:
+                    pass
+        r2 = f(*args, **kwargs)
+        a2 = arrays(r2)
+        ok = len(a2) == len(snaps) and all(x.shape == y.shape and np.array_equal(x, y, equal_nan=True) if x.dtype.kind in 'iubU' else
+                                            (x.shape == y.shape and np.allclose(x, y, rtol=1e-12, atol=1e-14, equal_nan=True)) for x, y in zip(a2, snaps))
+        self.check(ok, f'{key}/second-call-differs-after-editing-first-result',
+                   f'{key}: calling again with the same arguments after the caller edited the first result in place gives a different answer '
+                   '(the result aliases a cache or state is left over from the first call)', None, point='history/edit-result-then-call-again')
+        return r2
+
+    def attach(self, owner, name, post=None, pre=None, point=None, immutable_args=False):
         """wrap `owner.name` (module function or class method) and rebind every `numqi*` module attribute that
         *is* the original. `pre(call)` may return a snapshot (stored in call.snap); `post(call)` is evaluated after the
         call (also when it raised: call.exc). Both run in quiet mode. Returns the wrapper."""
@@ -344,6 +383,12 @@ class Ctx:
                 return func(*args, **kwargs)
             call = Call(func, point, args, kwargs)
             ctx.hit(point)
+            arg_digests = None
+            if immutable_args:
+                try:
+                    arg_digests = [(i, a, digest(a)) for i, a in ctx._array_args(args, kwargs)]
+                except Exception:
+                    arg_digests = None
             if pre is not None:
                 with ctx.quiet():
                     try:
@@ -361,6 +406,14 @@ class Ctx:
                         except Exception:
                             ctx.harness_error('post:' + point)
                 raise
+            if arg_digests:
+                for i, a, d in arg_digests:
+                    try:
+                        same = digest(a) == d
+                    except Exception:
+                        same = True
+                    ctx.check(same, f'{point.split(".")[-1]}/mutates-argument', f'{point} modified its array argument {i} in place',
+                              {'argument': i}, point='history/argument-not-mutated')
             if post is not None:
                 with ctx.quiet():
                     try:
